@@ -333,7 +333,7 @@ func runC19(c *Ctx) {
 	c.assume("mapset.Set methods have the effects derived from their bodies (grow by at most the number of arguments, shrink, empty)")
 
 	m := &counterModel{P: P, effects: map[*ssa.Function]setEffect{}}
-	m.bufF, m.capF, m.pF = P.Field("distinct", "Counter", "buf"), P.Field("distinct", "Counter", "cap"), P.Field("distinct", "Counter", "p")
+	m.bufF, m.capF, m.pF = resolveCounterFields(P)
 	ctor := P.Func("distinct", "", "NewCounter")
 	if m.bufF == nil || m.capF == nil || m.pF == nil || ctor == nil {
 		c.undecided("ANCHOR", "distinct.Counter fields / NewCounter", 0, "anchor not found")
